@@ -33,3 +33,48 @@ func TestBuildAll(t *testing.T) {
 	}
 	t.Log(kinds)
 }
+
+// every drawn generated-rules Spec must build, be accepted by the loader with every lookup, and
+// be deterministic
+func TestBuildRules(t *testing.T) {
+	s := &seq{i: 3}
+	kinds := map[string]int{}
+	types := map[int]int{}
+	for i := 0; i < 3000; i++ {
+		sp := DrawRuleSpec(s)
+		b1, err := Build(sp)
+		if err != nil {
+			t.Fatalf("%+v: %v", sp, err)
+		}
+		b2, _ := Build(sp)
+		if string(b1) != string(b2) {
+			t.Fatalf("%+v: not deterministic", sp)
+		}
+		f, err := Face(sp)
+		if err != nil {
+			t.Fatalf("%+v: %v", sp, err)
+		}
+		gsub, gpos, _, _ := sp.ruleLayouts()
+		want := 0
+		if gsub != nil {
+			want += len(gsub.Lookups)
+			for _, l := range gsub.Lookups {
+				types[l.Type]++
+			}
+		}
+		if gpos != nil {
+			want += len(gpos.Lookups)
+			for _, l := range gpos.Lookups {
+				types[100+l.Type]++
+			}
+		}
+		if n := len(f.Font.GSUB.Lookups) + len(f.Font.GPOS.Lookups); n != want || n == 0 {
+			t.Fatalf("%+v: %d lookups parsed, %d written", sp, n, want)
+		}
+		if f.Font.GDEF.GlyphClassDef == nil {
+			t.Fatalf("%+v: GDEF classes not parsed", sp)
+		}
+		kinds[sp.Kind]++
+	}
+	t.Log(kinds, types)
+}
